@@ -5,7 +5,16 @@ RULE = ("one Kani harness per operator cell with None in an operand position x e
 
 
 def check(run, only=None):
-    arms, hs = cells.run_cells(run, "c04", only=only)
+    from . import c05
+
+    def lazy_eq(run, arms):
+        # equality / inequality with a None operand: decided on the real equality helper with the eval_rec oracle (see C05)
+        hs = [h for h in c05.gen(run, run.tier) if (lambda h: h.name.startswith(('eq_', 'neq_')) and 'none' in h.name)(h)]
+        for h in hs:
+            h.spec = cells.Spec("", quick=True)
+            h.variant, h.tags = "Equals", ("lazy",)
+        return hs
+    arms, hs = cells.run_cells(run, "c04", only=only, extra=lazy_eq, extra_preamble=c05.PREAMBLE)
     run.assumptions += cells.COMMON_ASSUMPTIONS
     run.outside_claim += cells.OUTSIDE
     return run.finish(rule=RULE)
